@@ -211,19 +211,41 @@ Print Assumptions C11_failed_second_creation_is_clean.
 (* THE POSITIVE STATEMENT the former finding refuted, for every state the invariant describes (hence after every clean history:
    C11_net_invariant_reachable) and every request: a pair creation that does not succeed -- refused by the three checks, by the
    creator's own node at the first or second cmd_new, or by the receiving node at the hand-over -- answers an error and leaves
-   every host's bookkeeping (unit modules, used physical ids, qubitList, active applications), the receive deques, and the list
-   of qubits EVERY node holds (handles and numbers, in order; hence the number of qubits it holds) exactly as they were *)
+   every host's bookkeeping (unit modules, used physical ids, qubitList, active applications), the receive deques, and for EVERY
+   node the list of qubits it holds (the records themselves, in order), the list of qubits it simulates, its registers and its
+   register count exactly as they were (the only things that moved are two counters that are never re-used: the handle counter
+   and the creator node's register-number counter; Qasm/EprFailNode.v follows the seven native calls) *)
 Theorem C11_failed_creation_restores : forall s i app a known r adj rsock coins,
   ninv s -> i < length (n_hosts s) ->
   snd (nstep_r s (ACreate i app a known r adj rsock coins)) <> RDone None ->
   let s' := nstep s (ACreate i app a known r adj rsock coins) in
   snd (nstep_r s (ACreate i app a known r adj rsock coins)) = RErr /\
   n_hosts s' = n_hosts s /\ n_pend s' = n_pend s /\
-  forall j, vn (nth_node (n_net s') j) = vn (nth_node (n_net s) j) /\
-            hn (nth_node (n_net s') j) = hn (nth_node (n_net s) j) /\
+  forall j, virt (nth_node (n_net s') j) = virt (nth_node (n_net s) j) /\
+            sims (nth_node (n_net s') j) = sims (nth_node (n_net s) j) /\
+            regs (nth_node (n_net s') j) = regs (nth_node (n_net s) j) /\
+            numRegs (nth_node (n_net s') j) = numRegs (nth_node (n_net s) j) /\
             held (n_net s') j = held (n_net s) j.
 Proof. exact failed_creation_restores. Qed.
 Print Assumptions C11_failed_creation_restores.
+
+(* the Model-V core of it: a qubit created at node i and measured out again, or two qubits created, entangled (H, CNOT) and
+   measured out again, leave the network exactly as it was, except that the handle counter advanced by 1 (2) and node i's
+   register-number counter by 1 (2) -- for every network state satisfying the invariant, every node, every coin *)
+From SQ Require Import Net.InvStep Qasm.EprFailNode.
+Theorem C11_one_temporary_restored : forall i s v c,
+  ginv s -> snd (step s (ONew i)) = Ok v ->
+  run s [ONew i; OMeas (next_hid s) false c] = mkNet (upd (nodes s) i (bump (nth_node s i) 1)) (S (next_hid s)).
+Proof. exact one_temp_restored. Qed.
+Print Assumptions C11_one_temporary_restored.
+
+Theorem C11_two_temporaries_restored : forall i s v1 v2 c1 c2,
+  ginv s -> snd (step s (ONew i)) = Ok v1 -> snd (step (fst (step s (ONew i))) (ONew i)) = Ok v2 ->
+  let a1 := next_hid s in let a2 := S (next_hid s) in
+  run s [ONew i; ONew i; OGate1 a1 NH; OGate2 a1 a2 NCnot; OMeas a1 false c1; OMeas a2 false c2] =
+  mkNet (upd (nodes s) i (bump (nth_node s i) 2)) (S (S (next_hid s))).
+Proof. exact two_temps_restored. Qed.
+Print Assumptions C11_two_temporaries_restored.
 
 (* the same for one host at the level of cmd_epr: the creator's host is unchanged, its invariant holds over the new network *)
 Theorem C11_failed_creation_leaves_creator : forall i ex s known r adj coins,
@@ -231,7 +253,11 @@ Theorem C11_failed_creation_leaves_creator : forall i ex s known r adj coins,
   let c := cmd_epr_keep i s known r adj (fresh_id (h_used (q_host s))) coins in
   snd (fst c) <> RDone None ->
   snd (fst c) = RErr /\ q_host (fst (fst c)) = q_host s /\ tinvx i ex (fst (fst c)) /\
-  forall j, hn (nth_node (q_net (fst (fst c))) j) = hn (nth_node (q_net s) j) /\ held (q_net (fst (fst c))) j = held (q_net s) j.
+  forall j, virt (nth_node (q_net (fst (fst c))) j) = virt (nth_node (q_net s) j) /\
+            sims (nth_node (q_net (fst (fst c))) j) = sims (nth_node (q_net s) j) /\
+            regs (nth_node (q_net (fst (fst c))) j) = regs (nth_node (q_net s) j) /\
+            numRegs (nth_node (q_net (fst (fst c))) j) = numRegs (nth_node (q_net s) j) /\
+            held (q_net (fst (fst c))) j = held (q_net s) j.
 Proof. exact failed_creation_leaves_creator. Qed.
 Print Assumptions C11_failed_creation_leaves_creator.
 
